@@ -10,6 +10,7 @@ import (
 // C16 - live reconfiguration equals a fresh start and disturbs nothing unchanged
 
 const (
+	srvAddr4 = ":3018"
 	srvAddr3 = ":3017"
 	originC  = "10.0.0.3:7003"
 )
@@ -24,7 +25,7 @@ func init() {
 			return o.Hist.Probes["probe-pairs-compared"] > 0 && o.Hist.Probes["reloads"] > 0
 		},
 		Rule:         "seeded sequences of 1-5 valid configurations derived by random mutations (server: min-length / filter / compress profile / cache / location list set and unset; location: rewrite, added headers, added query, upstream; upstream: server set, Accept-Encoding, policy; add / remove of a server, a location, a compress profile, the bestCompression override, a cache; restart-only settings of surviving caches held constant as documented), applied by a reload task whose steps interleave with client traffic at every yield point. Then a fixed probe battery (servers x paths x Accept-Encoding x sizes around the thresholds x content types, every probe sent twice) is answered by the live-updated instance, the process image is replaced by a fresh instance started with the final configuration only (same simulated world), and the same battery is answered again: the observation vectors (origin reached, request as the origin saw it, status, headers, Content-Encoding, encoded length, cache label) must be equal. Also: requests to the unchanged server never fail during updates, its cached entries survive, a removed server refuses service after the 10s grace. non-trivial = at least one reload happened and one probe pair was compared; distinct = distinct history hash",
-		ExpectProbes: []string{"probe-pairs-compared", "reloads", "stable-request-during-reload", "stable-entry-hit-after-reload", "removed-server-refused-after-grace", "optional-field-unset", "server-added", "server-removed"},
+		ExpectProbes: []string{"probe-pairs-compared", "reloads", "stable-request-during-reload", "stable-entry-hit-after-reload", "removed-server-refused-after-grace", "optional-field-unset", "server-added", "server-removed", "two-servers-removed-in-one-update"},
 	})
 }
 
@@ -36,6 +37,7 @@ type c16State struct {
 	l2Timeout                               string
 	u2Server, u2AE, u2Policy                string
 	hasS3, hasL3, hasCp2, hasBest, hasC3    bool
+	hasS4                                   bool
 	cpGzip                                  uint
 	cpKeys                                  string // which level keys the cp profile carries: both | gzip | br
 	c2Size                                  int
@@ -110,6 +112,9 @@ func (st *c16State) config() Config {
 	if st.hasS3 {
 		c.Servers = append(c.Servers, ServerCfg{Addr: srvAddr3, Locations: []string{"l2"}, Cache: "c2", Compress: "cp"})
 	}
+	if st.hasS4 {
+		c.Servers = append(c.Servers, ServerCfg{Addr: srvAddr4, Locations: []string{"l1"}, Cache: "c1", Compress: "cp"})
+	}
 	return c
 }
 
@@ -165,8 +170,17 @@ func (st *c16State) mutate(g *Gen) string {
 		st.u2Policy = pick(g, "first", "roundRobin", "")
 		return "u2=" + st.u2Server + "/" + st.u2AE
 	case 11:
-		st.hasS3 = !st.hasS3
-		return fmt.Sprintf("s3=%v", st.hasS3)
+		switch g.n(0, 3) {
+		case 0:
+			// both extra servers appear / disappear in one update
+			st.hasS3 = !st.hasS3
+			st.hasS4 = st.hasS3
+		case 1:
+			st.hasS4 = !st.hasS4
+		default:
+			st.hasS3 = !st.hasS3
+		}
+		return fmt.Sprintf("s3=%v,s4=%v", st.hasS3, st.hasS4)
 	case 12:
 		st.hasCp2 = !st.hasCp2
 		return fmt.Sprintf("cp2=%v", st.hasCp2)
@@ -256,7 +270,7 @@ func genC16(g *Gen) *Plan {
 		op.Barrier = true
 		p.Ops = append(p.Ops, op)
 	}
-	for _, addr := range []string{srvAddr2, srvAddr3} {
+	for _, addr := range []string{srvAddr2, srvAddr3, srvAddr4} {
 		op := reqOp("GET", hostA, "/var/liveness")
 		op.Addr = addr
 		op.Tag = "addr-probe"
@@ -274,7 +288,7 @@ func genC16(g *Gen) *Plan {
 		ctype := pick(g, "text/plain", "application/json", "image/png")
 		base := pick(g, "/var/", "/var/", "/var/x/", "/stable/", "/other/")
 		uri := fmt.Sprintf("%sprobe%d?n=%d", base, i, i)
-		addr := pick(g, srvAddr, srvAddr2, srvAddr2, srvAddr2, srvAddr3)
+		addr := pick(g, srvAddr, srvAddr2, srvAddr2, srvAddr2, srvAddr3, srvAddr4)
 		battery = append(battery, probe{addr, uri, pick(g, "", "gzip", "br", "gzip, br")})
 		r := Reply{Status: 200, Size: size, Class: "fixed", CType: ctype, Header: [][2]string{{"Cache-Control", "max-age=600"}}}
 		if g.p(0.3) {
@@ -394,6 +408,9 @@ func oracleC16(o *Outcome) []Violation {
 		a, b := &o.Plan.Configs[i-1], &o.Plan.Configs[i]
 		if hasServer(a, srvAddr3) && !hasServer(b, srvAddr3) {
 			o.Hist.Probes["server-removed"]++
+			if hasServer(a, srvAddr4) && !hasServer(b, srvAddr4) {
+				o.Hist.Probes["two-servers-removed-in-one-update"]++
+			}
 		}
 		if !hasServer(a, srvAddr3) && hasServer(b, srvAddr3) {
 			o.Hist.Probes["server-added"]++
